@@ -466,7 +466,11 @@ package rapid
 // shutdown a fatal error is recorded first (runtime exit or extension crash, nothing else) and the cancellation carries an error
 //@ func (*rapidContext).watchEvents
 //@   requires c != nil && c.shutdownContext != nil
-//@   loop for event := range events: invariant [per-event] delta(FlowsCancelled) == delta(ExitOfCurrentGeneration) && delta(TerminationHandled) >= delta(FlowsCancelled) && delta(ShuttingDownAsked) == delta(FlowsCancelled) && delta(StoreFatalAny) == delta(NotShuttingDown) && delta(StoreRuntimeExit) + delta(StoreAgentCrash) == delta(StoreFatalAny) && delta(FlowsCancelledWithoutError) == delta(ShuttingDownAsked) - delta(NotShuttingDown) && (delta(FlowsCancelled) >= 1 ==> last(TerminationHandled) < last(FlowsCancelled) || delta(TerminationHandled) > delta(FlowsCancelled)) && (delta(StoreFatalAny) >= 1 ==> last(StoreFatalAny) <= now())
+//@   loop for event := range events: invariant [per-event] delta(FlowsCancelled) == delta(ExitOfCurrentGeneration) && delta(TerminationHandled) >= delta(FlowsCancelled) && delta(ShuttingDownAsked) == delta(FlowsCancelled) && delta(StoreFatalAny) == delta(NotShuttingDown) && delta(StoreRuntimeExit) + delta(StoreAgentCrash) == delta(StoreFatalAny) && delta(FlowsCancelledWithoutError) == delta(ShuttingDownAsked) - delta(NotShuttingDown) && (delta(StoreFatalAny) >= 1 ==> last(StoreFatalAny) <= now())
+// C05 / C08 ("the next invocation is served by freshly started processes", "no trace of earlier generations"): the closed exit channel
+// is what a reset waits for; the cancellation that belongs to an exit is applied before the exit is announced, so that it cannot
+// land in the generation the reset has meanwhile set up
+//@   loop for event := range events: invariant [an-exit-is-announced-only-after-its-cancellation-was-applied] delta(FlowsCancelled) >= 1 ==> last(FlowsCancelled) < last(TerminationHandled)
 //@   loop for event := range events: invariant [earlier-generations-do-not-disturb] delta(StoreFatalAny) <= delta(ExitOfCurrentGeneration) && delta(FlowsCancelled) <= delta(ExitOfCurrentGeneration) && delta(GenerationChecked) == delta(ExitOfCurrentGeneration) + delta(ExitOfEarlierGeneration)
 
 // the failure message: error type = first recorded fatal error, else Sandbox.Failure
